@@ -509,7 +509,7 @@ func Run(c *run.Ctx) {
 		{"gen", c.N(88, 2200)},
 		{"sweep", c.N(14, 150)},
 		{"stdin", c.N(14, 140)},
-		{"strace", c.N(0, 150)},
+		{"strace", c.N(8, 150)},
 	}
 	for _, p := range plans {
 		for i := 0; i < p.n; i++ {
@@ -947,6 +947,12 @@ func (e *env) straceRun(s *runSpec) (pattern string) {
 	}
 	res := spawn(argv, e.root, envv, nil, nil, false, spawnLimit)
 	if res.startErr != nil {
+		if !c.Thorough() {
+			// the quick tier's other fault classes do not need a tracer: note it, do not void the run
+			c.Count("strace_unavailable", 1)
+			c.Note("cannot run strace (fault injection at arbitrary read offsets skipped): " + res.startErr.Error())
+			return ""
+		}
 		c.Inconclusive("cannot run strace: " + res.startErr.Error())
 		return ""
 	}
